@@ -18,7 +18,9 @@ def main():
   t0 = time.time()
   jobs = args.get("jobs") or [[args["profile"], s, args["n_bundles"]] for s in args["seeds"]]
   for profile, seed, n_bundles in jobs:
-    if profile.startswith("ro:"):
+    if profile.startswith("script:"):
+      rec = histories.run_script(profile[7:])
+    elif profile.startswith("ro:"):
       rec = histories.run_readonly_history(seed, profile=profile[3:], n_bundles=n_bundles)
     elif profile.startswith("fault:"):
       rec = histories.run_fault_history(seed, profile=profile[6:], n_bundles=n_bundles)
